@@ -763,6 +763,10 @@ fn resolve_shapes(repo: &Path) -> Result<Vec<(String, String, Vec<usize>)>, Stri
         if path_str(tr) != "Value" {
             continue;
         }
+        // items that only exist for the checks' hooks are not part of the library
+        if i.attrs.iter().any(|a| a.path().is_ident("cfg") && a.meta.to_token_stream().to_string().contains("verif-hooks")) {
+            continue;
+        }
         let ty = toks(&i.self_ty);
         let generics: Vec<String> = i.generics.params.iter().filter_map(|g| match g {
             syn::GenericParam::Type(t) => Some(t.ident.to_string()),
